@@ -11,6 +11,8 @@ package main
 //        ExcelDateToTime on the stored value.
 //        result:  text | num e=<within error bound> S=<day>:<sec>|- r=<Y M D h m s ns>
 //   dec <sys> <bits>     ExcelDateToTime on an arbitrary float64
+//   decf <sys> <bits>    timeFromExcelTime (hook, ExcelDateToTime without the negative guard) on an arbitrary
+//                        float64, compared with the model's float-level transcription run on Lean's Float
 //   encf <sys> <unixsec> <ns>   timeToExcelTime (hook) on the instant: float64 bit pattern of the result,
 //                        compared bit for bit with the model's float-level transcription
 //   civ <z>              time.Unix(z*86400).UTC().Date() and back (ties the calendar model to package time)
@@ -475,6 +477,24 @@ func c19dec(r *Run, sys bool, x float64) {
 	}
 }
 
+// c19decf ties the float-level decoder model (which float64 operations, in which order, on both
+// code paths) to the code: arbitrary floats, not only whole seconds.
+func c19decf(r *Run, sys bool, x float64) {
+	op := fmt.Sprintf("decf %s %016x", c19sysS(sys), math.Float64bits(x))
+	res := "PANIC"
+	func() {
+		defer func() { _ = recover() }()
+		res = "ok " + c19fields(xl.VerifC19TimeFromExcelTime(x, sys))
+	}()
+	r.Op(op, res)
+	r.Case(op, true)
+	if x < 62 {
+		r.Stat("decf:julian")
+	} else {
+		r.Stat("decf:gregorian")
+	}
+}
+
 // c19encf ties the float-level model (which float64 operations, in which order) to the code.
 func c19encf(r *Run, sys bool, sec int64, ns int) {
 	t := time.Unix(sec, int64(ns)).UTC()
@@ -836,6 +856,61 @@ func runC19(r *Run, rng *Rng, replay string) {
 		}
 	}
 
+	// 3c. float-level decoder on arbitrary floats -------------------------------------------------------
+	{
+		nD := 40000
+		if thorough {
+			nD = 500000
+		}
+		for i := 0; i < nD; i++ {
+			var x float64
+			switch rng.Intn(8) {
+			case 0: // arbitrary float on the Julian path
+				x = rng.F64() * 62
+			case 1: // around the path switch and whole days
+				x = float64(rng.Range(0, 64))
+				for k := rng.Range(-3, 3); k != 0; {
+					if k > 0 {
+						x = math.Nextafter(x, 1e9)
+						k--
+					} else {
+						x = math.Nextafter(x, -1e9)
+						k++
+					}
+				}
+			case 2: // stored value of a random instant in the first two months of a system, any nanosecond
+				sysb := rng.Bool()
+				base := time.Date(1900, 3, 1, 0, 0, 0, 0, time.UTC)
+				if sysb {
+					base = time.Date(1904, 1, 1, 0, 0, 0, 0, time.UTC)
+				}
+				t := base.Add(time.Duration(rng.Intn(62*86400))*time.Second + time.Duration(rng.Intn(1000000000)))
+				x, _ = xl.VerifC19TimeToExcelTime(t, sysb)
+				c19decf(r, sysb, x)
+				continue
+			case 3: // stored value of a random instant of the range, any nanosecond
+				u := lo + int64(rng.U64()%uint64(hi-lo+1))
+				x, _ = xl.VerifC19TimeToExcelTime(time.Unix(u, int64(rng.Intn(1000000000))).UTC(), false)
+			case 4: // whole second +- a few ulps
+				day := float64(rng.Intn(2958466))
+				x = day + float64(rng.Intn(86400))/86400
+				x = math.Nextafter(x, x+float64(rng.Range(-1, 1)))
+			case 5: // near the 500 ms rounding boundary
+				day := int64(rng.Range(62, 2958465))
+				nsd := int64(rng.Intn(86400))*1000000000 + 500913600 + int64(rng.Range(-3000, 3000))
+				x, _ = new(big.Rat).Add(new(big.Rat).SetInt64(day), big.NewRat(nsd, 86400e9)).Float64()
+			default: // arbitrary float on the Gregorian path
+				x = 62 + rng.F64()*2958404
+			}
+			c19decf(r, rng.Bool(), x)
+		}
+		for _, x := range []float64{0, 1e-300, 1e-9, 0.5, 61, 61.99999999999999, 62, 62.00000000000001, 63, 2958465.999988426, 2958466, 1e7,
+			-1e-9, -0.25, -0.5, -0.75, -1, -1.5, -61.5, -62, -100.25} {
+			c19decf(r, false, x)
+			c19decf(r, true, x)
+		}
+	}
+
 	// 4. calendar and Fliegel sweeps ---------------------------------------------------------------
 	civStride := int64(97)
 	if thorough {
@@ -900,6 +975,13 @@ func c19replay(r *Run, path string) {
 			b, err := strconv.ParseUint(w[2], 16, 64)
 			if err == nil {
 				c19dec(r, w[1] == "1", math.Float64frombits(b))
+			}
+		case "decf":
+			if len(w) >= 3 {
+				b, err := strconv.ParseUint(w[2], 16, 64)
+				if err == nil {
+					c19decf(r, w[1] == "1", math.Float64frombits(b))
+				}
 			}
 		case "encf":
 			if len(w) >= 4 {
